@@ -794,6 +794,27 @@ def splitHostPort (hp : Bytes) : Option (Bytes × Bytes) :=
       else if hp.contains 93 then none
       else some (hp.take i, hp.drop (i + 1))
 
+/-- the digit loop of `strconv.ParseUint(s, 10, 16)` after its empty-string test, `n` = value so far
+    (`none` = `ErrSyntax` or `ErrRange`).  With `base = 10` given explicitly there is no sign, no
+    prefix and no `_`; a byte that is not `0`…`9` is a syntax error (letters map to digits ≥ 10 =
+    base); `maxVal = 1<<16 - 1`, and as soon as `n*10 + d > maxVal` the loop returns `ErrRange`,
+    however many digits follow.  The other range test, `n >= cutoff` with `cutoff = 2^64/10 + 1`,
+    can never fire: `n ≤ 65535` on every entry of the loop body. -/
+def parseUint16Loop : Bytes → Nat → Option Nat
+  | [], n => some n
+  | c :: rest, n =>
+    if isDigit c then
+      let n1 := n * 10 + (c.toNat - 48)
+      if n1 > 65535 then none else parseUint16Loop rest n1
+    else none
+
+/-- `strconv.ParseUint(s, 10, 16)`: `none` = an error was returned -/
+def parseUint16 (s : Bytes) : Option Nat :=
+  if s.isEmpty then none else parseUint16Loop s 0
+
+/-- `host == "" || strings.ContainsAny(host, " \t")` negated: the host check of `parseProxy` -/
+def hostOk (h : Bytes) : Bool := !h.isEmpty && !h.contains 32 && !h.contains 9
+
 /-- `parseProxy` (`none` = error) -/
 def parseProxy (s : Bytes) : Option Proxy :=
   let s := trimSpace s
@@ -804,7 +825,10 @@ def parseProxy (s : Bytes) : Option Proxy :=
     | some (mode, hp) =>
       match splitHostPort hp with
       | none => none
-      | some (h, p) => some ⟨parseMode mode, h, p⟩
+      | some (h, p) =>
+        if !hostOk h then none                              -- invalid host
+        else if (parseUint16 p).isNone then none            -- invalid port
+        else some ⟨parseMode mode, h, p⟩
 
 /-- `Proxies.First` -/
 def proxiesFirst (s : Bytes) : Option Proxy :=
